@@ -114,6 +114,69 @@ type Ctx struct {
 	UFs map[string]*UFSig
 	// variables in creation order (for declarations and models)
 	Vars []*Term
+	// memoised free-symbol sets (variable term IDs; UFs by negative pseudo id)
+	varsMemo map[int][]int
+	ufIDs    map[string]int
+}
+
+// SymbolsOf returns the sorted set of free symbols of t: IDs of variables and
+// a negative pseudo-id per uninterpreted function name.
+func (c *Ctx) SymbolsOf(t *Term) []int {
+	if c.varsMemo == nil {
+		c.varsMemo = map[int][]int{}
+		c.ufIDs = map[string]int{}
+	}
+	if v, ok := c.varsMemo[t.ID]; ok {
+		return v
+	}
+	var res []int
+	switch t.Op {
+	case OConst:
+	case OVar:
+		res = []int{t.ID}
+	default:
+		if t.Op == OUF {
+			id, ok := c.ufIDs[t.Name]
+			if !ok {
+				id = -(len(c.ufIDs) + 1)
+				c.ufIDs[t.Name] = id
+			}
+			res = []int{id}
+		}
+		for _, a := range t.Args {
+			res = mergeSorted(res, c.SymbolsOf(a))
+		}
+	}
+	c.varsMemo[t.ID] = res
+	return res
+}
+
+func mergeSorted(a, b []int) []int {
+	if len(a) == 0 {
+		return b
+	}
+	if len(b) == 0 {
+		return a
+	}
+	out := make([]int, 0, len(a)+len(b))
+	i, j := 0, 0
+	for i < len(a) && j < len(b) {
+		switch {
+		case a[i] < b[j]:
+			out = append(out, a[i])
+			i++
+		case a[i] > b[j]:
+			out = append(out, b[j])
+			j++
+		default:
+			out = append(out, a[i])
+			i++
+			j++
+		}
+	}
+	out = append(out, a[i:]...)
+	out = append(out, b[j:]...)
+	return out
 }
 
 type UFSig struct {
